@@ -482,8 +482,14 @@ def r4(run, ctx):
                                 else None, True) and norm_text(n.ast.value) == 'str(fmt_options[option])',
                   'the replacement is str(value)', rp, n.ast)
     frets = [x for x in walk_local(f.node) if isinstance(x, ast.Return)]
-    run.check('R4', len(frets) == 1 and astq.has_pattern(frets[0], 'return $m.sub(_repl, data)'),
-              'every occurrence is substituted', f, frets[0] if frets else f.node)
+    fr_nodes = [n for n in ctx.live_nodes(f) if n.kind == 'stmt' and isinstance(n.ast, ast.Return)
+                and n.ast.value is not None]
+    sub_alts = [a for n in fr_nodes for a in rdf.expand(n, n.ast.value, stop=('match',))]
+    run.check('R4', len(frets) == 1 and bool(sub_alts) and all(
+        isinstance(a.expr, ast.Call) and astq.call_last(a.expr) == 'sub' and
+        [norm_text(x) for x in a.expr.args] == ['_repl', 'data'] and not a.expr.keywords
+        for a in sub_alts), 'every occurrence is substituted', f,
+        frets[0] if frets else f.node)
     run.check('R4', "elif prefix == 'circus': match = _CIRCUS_VAR" in txt or
               "match = _CIRCUS_VAR" in txt, 'the circus prefix uses the precompiled pattern', f, f.node)
 
